@@ -32,10 +32,20 @@ pub fn run_caught(sc: &Scenario) -> stream::Outcome {
             if msg.starts_with("harness:") {
                 harness_error(&msg);
             }
+            if stream::reference_panics(sc) {
+                // the slice entry point panics on this input too: not a C12 matter
+                return stream::Outcome {
+                    violation: None,
+                    counters: Counters::default(),
+                    trace_hash: 0,
+                    nontrivial: false,
+                    build_error: Some(format!("reference (slice) search panicked: {msg}")),
+                };
+            }
             stream::Outcome {
                 violation: Some(Violation {
                     class: "panic".into(),
-                    detail: format!("library code panicked: {msg}"),
+                    detail: format!("byte-iterator search panicked where the slice search does not: {msg}"),
                 }),
                 counters: Counters::default(),
                 trace_hash: 0,
